@@ -56,6 +56,8 @@ ASSUMPTIONS = [
     "negative input values are not sent through the load_image model (Photon clips negatives by design, see C13)",
     "a history starts in a fresh process state: unique directory per history and cache of the cropping helper cleared",
     "readout time 1.0 s, time_scale 1.0, multiplier 1.0, so the models add the file values unscaled",
+    "every write / rename of a history sets an explicit, strictly increasing mtime (1 s apart) with os.utime: two "
+    "versions of the same size written within one timestamp tick of the file system are not modelled",
 ]
 RULE = ("fmt: product(shape in 5, value kind, writer/format, reader) ; place: product(input shape 4x4, detector shape "
         "4x4) per route, each case evaluating all 121 offsets and 5 keywords; non-trivial = at least one accepted "
@@ -438,6 +440,7 @@ cfgx.install(_cfg)
 # ================================================================== part hist (seqx)
 
 H_DSHAPE = (2, 3)
+MTIME_BASE = 1_700_000_000          # seconds; every write of a history gets MTIME_BASE + k
 VERSIONS = {"A": (2, 3), "B": (2, 3), "C": (3, 2), "Z": (2, 3)}
 
 
@@ -471,9 +474,10 @@ class HistModel:
 
     def __init__(self, ext, tier, prefix=()):
         self.ext, self.tier, self.prefix = ext, tier, [list(p) for p in prefix]
-        ops = [["load"], ["cropped"], ["model", "image"], ["model", "charge"]]
+        ops = [["cropped"], ["model", "image"], ["model", "charge"]]
         if tier == "thorough":
             ops.append(["obs"])
+        ops.append(["load"])
         ops += [["w", "B"], ["w", "C"], ["w", "A"], ["rn", "B"], ["rn", "A"]]
         self._ops = ops
 
@@ -505,16 +509,29 @@ class HistModel:
             os.mkdir(d)
             path = os.path.join(d, "input" + self.ext)
             other = os.path.join(d, "second" + self.ext)
+            nwrites = 0
+
+            def stamp():
+                # explicit, strictly increasing modification time (1 s per write): the verdict must not depend on
+                # the timestamp granularity of the file system
+                nonlocal nwrites
+                t = (MTIME_BASE + nwrites) * 1_000_000_000
+                os.utime(path, ns=(t, t))
+                nwrites += 1
+
             _write(path, version_array("A", seed), self.ext)
+            stamp()
             for op in hist:
                 try:
                     if op[0] == "w":
                         _write(path, version_array(op[1], seed), self.ext)
+                        stamp()
                         outs.append(None)
                     elif op[0] == "rn":
                         tmp = path + ".new" + self.ext
                         _write(tmp, version_array(op[1], seed), self.ext)
                         os.replace(tmp, path)
+                        stamp()
                         outs.append(None)
                     elif op[0] == "load":
                         outs.append(np.asarray(pyxel.load_image(path), dtype="float64"))
